@@ -2,3 +2,4 @@ import Driver.Util
 import Driver.Ops.Data
 import Driver.Ops.Reply
 import Driver.Ops.Proxy
+import Driver.Ops.Envelope
